@@ -165,10 +165,12 @@ def t2_atomics(ck, L, acts):
         # the generated package, and (64-bit target) package sync/atomic itself for the typed methods;
         # for the 32-bit target only the generated package can be emitted (build.Do wants to assemble
         # sync/atomic there, and LLVM 14 cannot re-read its own "atomicrmw xchg ptr %0, %1")
-        rc, ir = vlib.sh([gen] + flags + ["."], cwd=d, env=L.env(), timeout=600)
-        if rc == 0 and target == "amd64":
-            rc, ir2 = vlib.sh([gen] + flags + ["sync/atomic"], cwd=d, env=L.env(), timeout=600)
-            ir = ir + "\n" + ir2 if rc == 0 else ir2
+        with ThreadPoolExecutor(2) as tp:
+            f1 = tp.submit(vlib.sh, [gen] + flags + ["."], d, L.env(), 600)
+            f2 = tp.submit(vlib.sh, [gen] + flags + ["sync/atomic"], d, L.env(), 600)
+            (rc, ir), (rc2, ir2) = f1.result(), f2.result()
+        if rc == 0:
+            rc, ir = rc2, (ir + "\n" + ir2 if rc2 == 0 else ir2)
         if rc != 0:
             acts.append(("broken", ("t2-atomics:verifgen-run-" + target, ir[-1500:])))
             continue
@@ -269,10 +271,9 @@ def e2e_part(ck):
     if not L.ok:
         return [("broken", ("t2-atomics:llgo-build", L.buildlog[-1500:]))]
     t2_atomics(ck, L, acts)
-    # goroutines + sync.Mutex/WaitGroup/Once/Cond/atomic counters
-    e2e_program(ck, L, acts, "c11e2e", "main.go.txt", 3, "e2e-sync")
-    # store-buffering litmus: atomic Store then Load in two parallel threads (one total order)
-    e2e_program(ck, L, acts, "c11sb", "sb.go.txt", 2, "e2e-atomic", timeout=60, hang_is_violation=False)
+    # goroutines + sync.Mutex/WaitGroup/Once/Cond/atomic counters, and a store-buffering litmus
+    # for sync/atomic (last line, key e2e-sync-SB)
+    e2e_program(ck, L, acts, "c11e2e", "main.go.txt", 2, "e2e-sync")
     return acts
 
 
